@@ -86,6 +86,7 @@ def gen_world(rng: random.Random, tier: str) -> dict:
         "int_fs": rng.random() < 0.25,
         # how the user's arrays lie in memory: C order, Fortran order, or a strided view of a larger buffer
         "layout": rng.choices(["C", "F", "view"], weights=[0.7, 0.18, 0.12])[0],
+        "dtype": rng.choices(["float64", "float32", "int64", "readonly"], weights=[0.8, 0.08, 0.06, 0.06])[0],
     }
     if kind == "preger":
         nref = rng.randint(1, min(nch) - 1) if min(nch) > 1 else 1
@@ -99,8 +100,16 @@ def build_arrays(world):
     for i in range(len(world["ndat"])):
         a = datagen.resonator_record(world["data_seed"] + 7919 * i, world["ndat"][i], world["nch"][i], world["fs"],
                                      nmodes=2, trend=world["trend"])
+        dt = world.get("dtype", "float64")
+        if dt == "float32":
+            a = a.astype(np.float32)
+        elif dt == "int64":
+            a = np.round(a * 100).astype(np.int64)
         lay = world.get("layout", "C")
-        if lay == "F":
+        if dt == "readonly":
+            a.setflags(write=False)
+            owners.append(a)
+        elif lay == "F":
             a = np.asfortranarray(a)
             owners.append(a)
         elif lay == "view":
@@ -131,12 +140,13 @@ class Model:
     def __init__(self, world, arrays):
         self.kind = world["kind"]
         self.fs0 = float(world["fs"])
-        self.init = [a.copy() for a in arrays]
+        # private copies in the same memory order (C stays C, Fortran stays Fortran): rounding may depend on it
+        self.init = [np.array(a, order="K", copy=True) for a in arrays]
         self.ref = copy.deepcopy(world.get("ref_ind"))
         self.reset()
 
     def reset(self):
-        self.ds = [a.copy() for a in self.init]
+        self.ds = [np.array(a, order="K", copy=True) for a in self.init]
         self.fs = self.fs0
         self.ndec = 0
         self.flags = {"filt": False, "detr": False, "rb": False}
@@ -194,6 +204,9 @@ class Model:
 # ---------------------------------------------------------------------------------------------
 # comparison helpers
 # ---------------------------------------------------------------------------------------------
+_TOL = {"float32_world": False}  # single-precision input: every later step carries single-precision rounding
+
+
 def _close(a, b):
     a, b = np.asarray(a), np.asarray(b)
     if a.shape != b.shape:
@@ -205,7 +218,8 @@ def _close(a, b):
     scale = max(1.0, float(np.nanmax(np.abs(b))) if np.isfinite(b).any() else 1.0)
     m = np.isfinite(b)
     err = float(np.max(np.abs(a[m] - b[m]))) if m.any() else 0.0
-    if err > RTOL * scale:
+    rtol = 1e-4 if (a.dtype == np.float32 or b.dtype == np.float32 or _TOL["float32_world"]) else RTOL
+    if err > rtol * scale:
         return False, f"max abs err {err:.3e} (scale {scale:.3e})"
     return True, ""
 
@@ -410,6 +424,7 @@ def run_case(seed, tier="quick", case=None, known=()):
         swarm = None
         ops_in = case["ops"]
         nops = len(ops_in)
+    _TOL["float32_world"] = world.get("dtype") == "float32"
     arrays, owners = build_arrays(world)
     user_hash = [h_array(a) for a in owners]
     user_list = list(arrays)
@@ -665,6 +680,10 @@ def shrink_candidates(case):
     if w.get("int_fs"):
         w2 = copy.deepcopy(w)
         w2["int_fs"] = False
+        yield {"world": w2, "ops": ops}
+    if w.get("dtype", "float64") != "float64":
+        w2 = copy.deepcopy(w)
+        w2["dtype"] = "float64"
         yield {"world": w2, "ops": ops}
     if w.get("layout", "C") != "C":
         w2 = copy.deepcopy(w)
